@@ -282,7 +282,7 @@ def race(pending, paths, budget_ms, max_procs=16):
     return answers
 
 
-def second_pass(interp, pending, ground, timeout_ms, supers):
+def second_pass(interp, pending, ground, timeout_ms, supers, ext_budget=None):
     """The quick in-process z3 pass left these open: z3 and cvc5 command-line solvers run in parallel on the SMT-LIB
     text of every open obligation (first `unsat` wins); what is still open gets a candidate model from the ground theory,
     which only a native replay can turn into a violation."""
@@ -299,7 +299,7 @@ def second_pass(interp, pending, ground, timeout_ms, supers):
         with open(pth, "w") as fh:
             fh.write(o.smt2)
         paths.append(pth)
-    budget = max(timeout_ms, 20000)
+    budget = ext_budget or max(timeout_ms, 20000)
     answers = race(pending, paths, budget)
     for pth in paths:
         try:
@@ -331,6 +331,44 @@ def second_pass(interp, pending, ground, timeout_ms, supers):
             ground.pop()
     for o in pending:
         o.smt2 = None
+
+
+def discharge(interp, obls, timeout_ms, props_of=None, ext_budget=None):
+    """z3 in-process (short budget), then z3/cvc5 command-line race on what is left; returns the ground solver"""
+    allf = []
+    for o in obls:
+        allf.extend(o.pc)
+        allf.append(o.goal)
+    supers = T.sub_supers(allf)
+    z3_first = min(timeout_ms, 400)
+    base = solver_for(interp, z3_first, supers=supers)
+    ground = solver_for(interp, timeout_ms, ground=True, supers=supers)
+    pending = []
+    for o in obls:
+        if props_of is not None:
+            o.props = props_of(o.clause)
+        g = z3.simplify(o.goal)
+        t1 = time.time()
+        if z3.is_true(g):
+            o.status, o.backend = "discharged", "simplifier"
+        else:
+            base.push()
+            base.add(*o.pc)
+            base.add(z3.Not(o.goal))
+            res = base.check()
+            if res == z3.unsat:
+                o.status, o.backend = "discharged", "z3"
+            elif res == z3.sat:
+                o.status, o.backend = "failed", "z3"
+                o.model = base.model()
+            else:
+                o.status, o.backend = "unknown", "z3:" + base.reason_unknown()
+                o.smt2 = base.to_smt2()
+                pending.append(o)
+            base.pop()
+        o.time = time.time() - t1
+    second_pass(interp, pending, ground, timeout_ms, supers, ext_budget=ext_budget)
+    return ground
 
 
 def ground_only(fs):
@@ -497,48 +535,7 @@ def _run_instance(c, tree, mod, label, recv, rep, timeout_ms, lookup):
 
     # ---- discharge
     t_solve = time.time()
-    allf = []
-    for o in obls:
-        allf.extend(o.pc)
-        allf.append(o.goal)
-    supers = T.sub_supers(allf)
-    z3_first = min(timeout_ms, 400)
-    base = solver_for(interp, z3_first, supers=supers)
-    ground = solver_for(interp, timeout_ms, ground=True, supers=supers)
-    pending = []
-    for o in obls:
-        o.props = c.props_of(o.clause)
-        g = z3.simplify(o.goal)
-        t1 = time.time()
-        if z3.is_true(g):
-            o.status, o.backend = "discharged", "simplifier"
-        else:
-            base.push()
-            base.add(*o.pc)
-            base.add(z3.Not(o.goal))
-            res = base.check()
-            if res == z3.unsat:
-                o.status, o.backend = "discharged", "z3"
-            elif res == z3.sat:
-                o.status, o.backend = "failed", "z3"
-                o.model = base.model()
-            else:
-                o.status, o.backend = "unknown", "z3:" + base.reason_unknown()
-                o.smt2 = base.to_smt2()
-                pending.append(o)
-            base.pop()
-            if False:
-                # candidate counter-model in the ground theory (weaker: quantified facts dropped); only a native
-                # replay can turn it into a violation
-                ground.push()
-                ground.add(*ground_only(o.pc))
-                ground.add(z3.Not(o.goal))
-                if ground.check() == z3.sat:
-                    o.model = ground.model()
-                    o.status, o.backend = "failed", "z3-ground"
-                ground.pop()
-        o.time = time.time() - t1
-    second_pass(interp, pending, ground, timeout_ms, supers)
+    ground = discharge(interp, obls, timeout_ms, props_of=c.props_of)
     for cv, alts in cover_goals:
         ok = False
         for s1, g in alts:
